@@ -148,7 +148,10 @@ impl RK4 {
 
             // Adjust last step so we land exactly on xend
             let mut last = false;
+            // step taken in this iteration: the fixed step, or the remainder on the last step
+            let mut h = h;
             if (x + 1.01 * h - xend) * h.signum() > 0.0 {
+                h = xend - x;
                 last = true;
             }
 
